@@ -311,10 +311,10 @@ fn ls_node_isis(b: u8) -> NodeDescriptor {
     }
 }
 
-fn ls_link_big(identifier: u64) -> BgpLsNlri {
+fn ls_link_big(identifier: u64) -> Nlri {
     let a6: Ipv6Addr = "2001:db8::1".parse().unwrap();
     let b6: Ipv6Addr = "2001:db8::2".parse().unwrap();
-    BgpLsNlri::Link(BgpLsLinkNlri {
+    Nlri::Ls(BgpLsNlri::Link(BgpLsLinkNlri {
         protocol_id: rustybgp_packet::ls::PROTOCOL_ISIS_L2,
         identifier,
         local_node: ls_node_isis(1),
@@ -328,7 +328,7 @@ fn ls_link_big(identifier: u64) -> BgpLsNlri {
             LinkDescTlv::Ipv6NeighborAddr(b6.octets()),
             LinkDescTlv::MultiTopoId(vec![0, 2, 0x0fff]),
         ],
-    })
+    }))
 }
 
 /// Named NLRI values of one family: distinct, all RFC-valid and accepted by
@@ -853,4 +853,850 @@ pub fn nexthops(family: Family) -> Vec<NexthopCase> {
 
 pub fn default_nexthop(family: Family) -> Option<Nexthop> {
     nexthops(family)[0].nexthop
+}
+
+// ===========================================================================
+// Attributes
+// ===========================================================================
+
+pub const CODE_UNKNOWN_TRANSITIVE: u8 = 200;
+pub const CODE_UNKNOWN_NONTRANSITIVE: u8 = 201;
+pub const CODE_FILLER: u8 = 250;
+
+pub fn origin(v: u32) -> Attribute {
+    Attribute::new_with_value(Attribute::ORIGIN, v).unwrap()
+}
+pub fn med(v: u32) -> Attribute {
+    Attribute::new_with_value(Attribute::MULTI_EXIT_DESC, v).unwrap()
+}
+pub fn local_pref(v: u32) -> Attribute {
+    Attribute::new_with_value(Attribute::LOCAL_PREF, v).unwrap()
+}
+pub fn originator_id(v: u32) -> Attribute {
+    Attribute::new_with_value(Attribute::ORIGINATOR_ID, v).unwrap()
+}
+pub fn bin(code: u8, b: Vec<u8>) -> Attribute {
+    Attribute::new_with_bin(code, b).unwrap()
+}
+fn be32s(vs: &[u32]) -> Vec<u8> {
+    vs.iter().flat_map(|v| v.to_be_bytes()).collect()
+}
+/// Canonical (4-octet) AS_PATH body from segments (type, ASNs); RFC 4271 §4.3.
+/// A segment holds 1..=255 ASNs.
+pub fn as_path_body(segs: &[(u8, Vec<u32>)]) -> Vec<u8> {
+    let mut b = Vec::new();
+    for (t, asns) in segs {
+        assert!(!asns.is_empty() && asns.len() <= 255);
+        b.push(*t);
+        b.push(asns.len() as u8);
+        b.extend_from_slice(&be32s(asns));
+    }
+    b
+}
+pub fn as_path(segs: &[(u8, Vec<u32>)]) -> Attribute {
+    bin(Attribute::AS_PATH, as_path_body(segs))
+}
+pub fn communities(cs: &[u32]) -> Attribute {
+    bin(Attribute::COMMUNITY, be32s(cs))
+}
+pub fn cluster_list(ids: &[u32]) -> Attribute {
+    bin(Attribute::CLUSTER_LIST, be32s(ids))
+}
+pub fn ext_communities(ecs: &[[u8; 8]]) -> Attribute {
+    bin(Attribute::EXTENDED_COMMUNITY, ecs.iter().flatten().copied().collect())
+}
+pub fn large_communities(lcs: &[(u32, u32, u32)]) -> Attribute {
+    bin(Attribute::LARGE_COMMUNITY, lcs.iter().flat_map(|(a, b, c)| be32s(&[*a, *b, *c])).collect())
+}
+/// Canonical 8-byte AGGREGATOR (4-octet AS + IPv4), RFC 6793 §3.
+pub fn aggregator(asn: u32, ip: Ipv4Addr) -> Attribute {
+    let mut b = asn.to_be_bytes().to_vec();
+    b.extend_from_slice(&ip.octets());
+    bin(Attribute::AGGREGATOR, b)
+}
+fn tlv16(t: u16, v: &[u8]) -> Vec<u8> {
+    let mut o = t.to_be_bytes().to_vec();
+    o.extend_from_slice(&(v.len() as u16).to_be_bytes());
+    o.extend_from_slice(v);
+    o
+}
+fn tlv8_16(t: u8, v: &[u8]) -> Vec<u8> {
+    let mut o = vec![t];
+    o.extend_from_slice(&(v.len() as u16).to_be_bytes());
+    o.extend_from_slice(v);
+    o
+}
+fn tlv8_8(t: u8, v: &[u8]) -> Vec<u8> {
+    let mut o = vec![t, v.len() as u8];
+    o.extend_from_slice(v);
+    o
+}
+
+const SEQ: u8 = 2;
+const SET: u8 = 1;
+const CSEQ: u8 = 3;
+const CSET: u8 = 4;
+
+fn prefix_sid_bodies() -> Vec<Vec<u8>> {
+    // RFC 8669 §3.1 Label-Index TLV: type 1, len 7: reserved(1) flags(2) index(4)
+    let label_index = tlv8_16(1, &[0, 0, 0, 0, 0, 0, 42]);
+    // RFC 8669 §3.2 Originator SRGB TLV: type 3: flags(2) + n x (base(3) range(3))
+    let srgb = tlv8_16(3, &[0, 0, 0x00, 0x3e, 0x80, 0x00, 0x1f, 0x40]);
+    // RFC 9252 §2/§3.1/§3.2.1 SRv6 L3 Service TLV with SID Information + SID Structure
+    let mut info = vec![0u8];
+    info.extend_from_slice(&"2001:0:5:3::".parse::<Ipv6Addr>().unwrap().octets());
+    info.extend_from_slice(&[0x00, 0x00, 0x13, 0x00]); // flags, behavior 19 (End.DT4), reserved
+    info.extend_from_slice(&tlv8_16(1, &[40, 24, 16, 0, 16, 64]));
+    let mut l3 = vec![0u8];
+    l3.extend_from_slice(&tlv8_16(1, &info));
+    let srv6_l3 = tlv8_16(5, &l3);
+    let mut both = label_index.clone();
+    both.extend_from_slice(&srgb);
+    // large: SRGB with 50 ranges (2+300 bytes)
+    let mut big = vec![0u8, 0];
+    for i in 0..50u32 {
+        let base = 16000 + i * 1000;
+        big.extend_from_slice(&[(base >> 16) as u8, (base >> 8) as u8, base as u8, 0, 0x03, 0xe8]);
+    }
+    let mut big_attr = label_index.clone();
+    big_attr.extend_from_slice(&tlv8_16(3, &big));
+    vec![label_index, both, srv6_l3, big_attr]
+}
+
+fn ls_attr_bodies() -> Vec<Vec<u8>> {
+    // RFC 9552 §5.3: node / link / prefix attribute TLVs (type(2) len(2) value)
+    let mut node = tlv16(1024, &[0x80]); // node flag bits
+    node.extend_from_slice(&tlv16(1026, b"rtr1")); // node name
+    node.extend_from_slice(&tlv16(1027, &[0x49, 0x00, 0x01])); // IS-IS area
+    node.extend_from_slice(&tlv16(1028, &[192, 0, 2, 1])); // IPv4 router-id local
+    // RFC 9085 §2.1.2 SR capabilities: flags, reserved, range(3) + SID/Label sub-TLV 1161 (len 3)
+    let mut srcap = vec![0x80, 0x00, 0x00, 0x1f, 0x40];
+    srcap.extend_from_slice(&tlv16(1161, &[0x00, 0x3e, 0x80]));
+    node.extend_from_slice(&tlv16(1034, &srcap));
+    node.extend_from_slice(&tlv16(1035, &[0, 1])); // SR algorithms
+    let mut link = tlv16(1088, &[0, 0, 0, 0xff]); // admin group
+    link.extend_from_slice(&tlv16(1089, &1.25e9f32.to_bits().to_be_bytes())); // max link bw
+    link.extend_from_slice(&tlv16(1090, &1.0e9f32.to_bits().to_be_bytes())); // max reservable bw
+    link.extend_from_slice(&tlv16(1091, &[0x4e, 0x6e, 0x6b, 0x28].repeat(8))); // unreserved bw x8
+    link.extend_from_slice(&tlv16(1092, &[0, 0, 0, 10])); // TE default metric
+    link.extend_from_slice(&tlv16(1095, &[0, 0, 10])); // IGP metric (IS-IS wide: 3 bytes)
+    link.extend_from_slice(&tlv16(1096, &[0, 0, 0, 1, 0, 0, 0, 2])); // SRLG
+    link.extend_from_slice(&tlv16(1098, b"ge-0/0/0")); // link name
+    link.extend_from_slice(&tlv16(1099, &[0x30, 0, 0, 0, 0x00, 0x5d, 0xc0])); // Adj-SID V|L, 3-byte label
+    link.extend_from_slice(&tlv16(1114, &[0, 0, 0x03, 0xe8])); // unidirectional link delay
+    let mut prefix = tlv16(1152, &[0x80]); // IGP flags
+    prefix.extend_from_slice(&tlv16(1155, &[0, 0, 0, 20])); // prefix metric
+    prefix.extend_from_slice(&tlv16(1158, &[0x00, 0, 0, 0, 0, 0, 0, 42])); // Prefix-SID index 42
+    let mut big = node.clone();
+    big.extend_from_slice(&tlv16(1025, &[0xab; 300])); // opaque node attribute
+    vec![node, link, prefix, big]
+}
+
+fn tunnel_encap_bodies() -> Vec<Vec<u8>> {
+    // RFC 9012 §2: tunnel TLV type(2) len(2); sub-TLV type(1) len(1, or 2 if type>=128)
+    // VXLAN (type 8): encapsulation sub-TLV 1 (§3.2.1: flags V|M, VNI(3), MAC(6), reserved(2)),
+    // tunnel egress endpoint sub-TLV 6 (§3.1: reserved(4) AFI(2) address), color sub-TLV 4 (§3.4.2)
+    let mut vx = tlv8_8(1, &[0xc0, 0x00, 0x27, 0x10, 0x02, 0x00, 0x5e, 0x10, 0x00, 0x01, 0, 0]);
+    vx.extend_from_slice(&tlv8_8(4, &[0x03, 0x0b, 0, 0, 0, 0, 0, 100]));
+    vx.extend_from_slice(&tlv8_8(6, &[0, 0, 0, 0, 0, 1, 192, 0, 2, 1]));
+    let vxlan = tlv16(8, &vx);
+    // SR Policy (type 15), RFC 9830 §2.4
+    let mut seglist = vec![0u8]; // reserved
+    seglist.extend_from_slice(&tlv8_8(9, &[0, 0, 0, 0, 0, 1])); // weight 1
+    seglist.extend_from_slice(&tlv8_8(1, &[0, 0, 0x03, 0xe8, 0x00, 0x00])); // type A label 16000>>? (label 16000: 0x03e80 << 12)
+    seglist.extend_from_slice(&tlv8_8(1, &[0, 0, 0x03, 0xe9, 0x00, 0x00]));
+    let mut sr = tlv8_8(12, &[0, 0, 0, 0, 0, 100]); // preference 100
+    sr.extend_from_slice(&tlv8_8(13, &[0, 0, 0x05, 0xdc, 0x00, 0x00])); // binding SID (MPLS)
+    sr.extend_from_slice(&tlv8_8(14, &[0, 0, 1])); // ENLP
+    sr.extend_from_slice(&tlv8_8(15, &[10, 0])); // priority
+    sr.extend_from_slice(&tlv8_16(128, &seglist));
+    let mut name = vec![0u8];
+    name.extend_from_slice(b"policy-1");
+    sr.extend_from_slice(&tlv8_16(130, &name));
+    let srpol = tlv16(15, &sr);
+    // large: SR policy with 30 segments (> 255 bytes)
+    let mut sl = vec![0u8];
+    for i in 0..30u32 {
+        let e = (16000 + i) << 12;
+        let mut b = vec![0u8, 0];
+        b.extend_from_slice(&e.to_be_bytes());
+        sl.extend_from_slice(&tlv8_8(1, &b));
+    }
+    let mut sr2 = tlv8_8(12, &[0, 0, 0, 0, 0, 200]);
+    sr2.extend_from_slice(&tlv8_16(128, &sl));
+    let big = tlv16(15, &sr2);
+    let mut two = vxlan.clone();
+    two.extend_from_slice(&srpol);
+    vec![vxlan, srpol, two, big]
+}
+
+/// Every attribute kind the code knows, with several valid values each (small
+/// and > 255 bytes where the kind allows).  All values are in the canonical
+/// internal form (4-octet AS_PATH, 8-byte AGGREGATOR).
+pub fn attr_kinds() -> Vec<(&'static str, Vec<Attribute>)> {
+    let wide = 4_200_000_000u32;
+    let rt = |b: [u8; 8]| b;
+    vec![
+        ("origin", vec![origin(0), origin(1), origin(2)]),
+        ("as_path", vec![
+            Attribute::empty_as_path(),
+            as_path(&[(SEQ, vec![65001])]),
+            as_path(&[(SEQ, vec![65001, 65002, 65003])]),
+            as_path(&[(SEQ, vec![65001, wide, 65003])]),           // needs AS4_PATH on 2-byte sessions
+            as_path(&[(SEQ, vec![wide, wide + 1])]),
+            as_path(&[(SET, vec![65001, 65002])]),
+            as_path(&[(SEQ, vec![65001]), (SET, vec![65010, 65011]), (SEQ, vec![65020])]),
+            as_path(&[(CSEQ, vec![64512, 64513])]),
+            as_path(&[(CSET, vec![64512, 64513])]),
+            as_path(&[(CSEQ, vec![64512]), (SEQ, vec![65001, 65002])]),
+            as_path(&[(SEQ, (0..255).map(|i| 64000 + i).collect())]), // 1022 bytes: extended length
+            as_path(&[(SEQ, (0..255).map(|i| 64000 + i).collect()), (SEQ, (0..10).map(|i| 65100 + i).collect())]),
+        ]),
+        ("med", vec![med(0), med(100), med(u32::MAX)]),
+        ("local_pref", vec![local_pref(0), local_pref(100), local_pref(u32::MAX)]),
+        ("atomic_aggregate", vec![bin(Attribute::ATOMIC_AGGREGATE, vec![])]),
+        ("aggregator", vec![
+            aggregator(65001, Ipv4Addr::new(192, 0, 2, 1)),
+            aggregator(wide, Ipv4Addr::new(192, 0, 2, 2)),            // needs AS4_AGGREGATOR on 2-byte sessions
+        ]),
+        ("community", vec![
+            communities(&[0xfde9_0064]),
+            communities(&[0xffff_ff01, 0xffff_ff02, 0xffff_0006, 0xffff_0007]), // NO_EXPORT, NO_ADVERTISE, LLGR_STALE, NO_LLGR
+            communities(&(0..64).map(|i| 0xfde9_0000 + i).collect::<Vec<_>>()),  // 256 bytes
+            communities(&(0..300).map(|i| 0xfde9_0000 + i).collect::<Vec<_>>()), // 1200 bytes
+        ]),
+        ("originator_id", vec![originator_id(0xc000_0201), originator_id(1)]),
+        ("cluster_list", vec![
+            cluster_list(&[0xc000_0201]),
+            cluster_list(&[1, 2, 3]),
+            cluster_list(&(1..=64).collect::<Vec<_>>()),                // 256 bytes
+        ]),
+        ("ext_community", vec![
+            ext_communities(&[rt([0x00, 0x02, 0xfd, 0xe9, 0, 0, 0, 100])]),           // RT 2-octet AS
+            ext_communities(&[
+                rt([0x01, 0x02, 192, 0, 2, 1, 0, 7]),                                   // RT IPv4
+                rt([0x02, 0x02, 0xfa, 0x56, 0xea, 0x00, 0x00, 0x01]),                   // RT 4-octet AS
+                rt([0x40, 0x04, 0xfd, 0xe9, 0x4e, 0x6e, 0x6b, 0x28]),                   // link bandwidth (non-transitive)
+                rt([0x03, 0x0b, 0, 0, 0, 0, 0, 100]),                                   // color
+                rt([0x06, 0x00, 0x01, 0x00, 0, 0, 0, 5]),                               // MAC mobility sticky seq 5
+                rt([0x0c, 0x00, 0x00, 0x01, 0, 0, 0, 2]),                               // MUP direct segment id
+            ]),
+            ext_communities(&(0..32u8).map(|i| [0x00, 0x02, 0xfd, 0xe9, 0, 0, 1, i]).collect::<Vec<_>>()), // 256 bytes
+        ]),
+        // RFC 6793: only ever sent to / received from OLD speakers; see AttrFate::As4
+        ("as4_path", vec![
+            bin(Attribute::AS4_PATH, as_path_body(&[(SEQ, vec![65001, wide])])),
+            bin(Attribute::AS4_PATH, as_path_body(&[(SEQ, vec![wide]), (SET, vec![wide + 1, 65002])])),
+        ]),
+        ("as4_aggregator", vec![{
+            let mut b = wide.to_be_bytes().to_vec();
+            b.extend_from_slice(&[192, 0, 2, 2]);
+            bin(Attribute::AS4_AGGREGATOR, b)
+        }]),
+        // RFC 7311 §3: TLV type 1, length 11 (includes the 3 header bytes), 8-byte metric
+        ("aigp", vec![
+            bin(Attribute::AIGP, vec![1, 0, 11, 0, 0, 0, 0, 0, 0, 0, 100]),
+            bin(Attribute::AIGP, vec![1, 0, 11, 0xff, 0xff, 0xff, 0xff, 0xff, 0xff, 0xff, 0xff]),
+        ]),
+        ("large_community", vec![
+            large_communities(&[(65001, 1, 2)]),
+            large_communities(&[(wide, u32::MAX, 0), (65001, 0, 0)]),
+            large_communities(&(0..22).map(|i| (65001, 1, i)).collect::<Vec<_>>()), // 264 bytes
+        ]),
+        ("prefix_sid", prefix_sid_bodies().into_iter().map(|b| bin(Attribute::PREFIX_SID, b)).collect()),
+        ("ls", ls_attr_bodies().into_iter().map(|b| bin(Attribute::LS, b)).collect()),
+        ("tunnel_encap", tunnel_encap_bodies().into_iter().map(|b| bin(Attribute::TUNNEL_ENCAP, b)).collect()),
+        ("unknown_transitive", vec![
+            Attribute::new_opaque(CODE_UNKNOWN_TRANSITIVE, 0xc0, vec![]),
+            Attribute::new_opaque(CODE_UNKNOWN_TRANSITIVE, 0xc0, vec![1, 2, 3]),
+            Attribute::new_opaque(CODE_UNKNOWN_TRANSITIVE, 0xe0, vec![1, 2, 3]),       // partial bit already set
+            Attribute::new_opaque(CODE_UNKNOWN_TRANSITIVE, 0xc0, vec![0x5a; 255]),
+            Attribute::new_opaque(CODE_UNKNOWN_TRANSITIVE, 0xc0, vec![0x5a; 256]),     // -> extended length
+            Attribute::new_opaque(CODE_UNKNOWN_TRANSITIVE, 0xd0, vec![0x5a; 300]),     // ext flag given
+        ]),
+        ("unknown_nontransitive", vec![
+            Attribute::new_opaque(CODE_UNKNOWN_NONTRANSITIVE, 0x80, vec![9, 9]),
+            Attribute::new_opaque(CODE_UNKNOWN_NONTRANSITIVE, 0x80, vec![9; 300]),
+        ]),
+    ]
+}
+
+/// What a conforming receiver does with an attribute of the given kind.
+#[derive(Clone, Copy, Debug, PartialEq, Eq)]
+pub enum AttrFate {
+    /// delivered unchanged
+    Kept,
+    /// delivered; the stored flags gain the extended-length bit (0x10) when the
+    /// body is longer than 255 bytes (opaque attributes keep wire flags)
+    KeptExtFlag,
+    /// RFC 4271 §5: unrecognised optional non-transitive -> quietly ignored
+    Dropped,
+    /// RFC 6793 §4.2.3/§6: AS4_PATH / AS4_AGGREGATOR are consumed by the receiver
+    /// (merged on 2-byte sessions, discarded on 4-byte sessions); a speaker never
+    /// holds them in its RIB, so they are not part of `attribute_sets()`
+    As4,
+}
+
+pub fn attr_kind_fate(name: &str) -> AttrFate {
+    match name {
+        "unknown_transitive" => AttrFate::KeptExtFlag,
+        "unknown_nontransitive" => AttrFate::Dropped,
+        "as4_path" | "as4_aggregator" => AttrFate::As4,
+        _ => AttrFate::Kept,
+    }
+}
+
+pub fn base_attrs() -> Vec<Attribute> {
+    vec![origin(0), as_path(&[(SEQ, vec![65001])])]
+}
+
+fn sort_by_code(mut v: Vec<Attribute>) -> Vec<Attribute> {
+    v.sort_by_key(|a| a.code());
+    v
+}
+
+/// Attribute sets for UPDATEs: always contain ORIGIN and AS_PATH, never
+/// NEXT_HOP / MP_* / AS4_*; ordered by type code.
+///   "base", "<kind>#<i>" (base with that kind's i-th value added / substituted),
+///   "typical", "all-kinds" (one small value of every kind).
+pub fn attribute_sets() -> Vec<(String, Vec<Attribute>)> {
+    let mut out = vec![("base".to_string(), base_attrs())];
+    let kinds = attr_kinds();
+    for (name, vals) in &kinds {
+        if attr_kind_fate(name) == AttrFate::As4 {
+            continue;
+        }
+        for (i, a) in vals.iter().enumerate() {
+            let mut set: Vec<Attribute> = base_attrs().into_iter().filter(|b| b.code() != a.code()).collect();
+            set.push(a.clone());
+            out.push((format!("{name}#{i}"), sort_by_code(set)));
+        }
+    }
+    out.push(("typical".to_string(), sort_by_code(vec![
+        origin(0),
+        as_path(&[(SEQ, vec![65001, 65002])]),
+        med(10),
+        local_pref(200),
+        communities(&[0xfde9_0064, 0xfde9_00c8]),
+    ])));
+    let mut all = Vec::new();
+    for (name, vals) in &kinds {
+        if attr_kind_fate(name) == AttrFate::As4 {
+            continue;
+        }
+        let pick = if *name == "as_path" { 2 } else { 0 };
+        all.push(vals[pick].clone());
+    }
+    out.push(("all-kinds".to_string(), sort_by_code(all)));
+    out
+}
+
+pub fn attrs_wire_len(attrs: &[Attribute]) -> usize {
+    attrs.iter().map(|a| a.encode_to_bytes().len()).sum()
+}
+
+fn enc_len(body: usize) -> usize {
+    body + if body > 255 { 4 } else { 3 }
+}
+/// body length of an attribute whose total encoded size is `total`, if any
+fn body_for(total: usize) -> Option<usize> {
+    if (3..=258).contains(&total) {
+        Some(total - 3)
+    } else if total >= 260 && total - 4 <= 65535 {
+        Some(total - 4)
+    } else {
+        None // 0..=2 and 259 are unreachable with one attribute
+    }
+}
+
+/// An attribute block (ORIGIN, AS_PATH [SEQ 65001], then COMMUNITY filler and,
+/// for the remainder, one unknown optional-transitive attribute code 250) whose
+/// encoded size on a 4-octet-AS session is exactly `target` where possible.
+/// Returns (attrs, actual size).  Exact for every target >= 16 up to 65535+;
+/// the minimum is 13 (targets 14, 15 return 13 or 16).
+pub fn attr_block_of_size(target: usize) -> (Vec<Attribute>, usize) {
+    let mut v = base_attrs();
+    let base = attrs_wire_len(&v); // 13
+    if target <= base {
+        return (v, base);
+    }
+    let r = target - base;
+    // pure community filler?
+    if let Some(b) = body_for(r) {
+        if b >= 4 && b % 4 == 0 {
+            v.push(communities(&(0..(b / 4) as u32).map(|i| 0xfde9_0000 + i).collect::<Vec<_>>()));
+            let n = attrs_wire_len(&v);
+            return (v, n);
+        }
+    }
+    // community bulk + opaque remainder
+    let mut k = (r.saturating_sub(3 + 4) / 4).min(16383);
+    while k >= 1 {
+        let c = enc_len(4 * k);
+        if c + 3 <= r {
+            if let Some(b) = body_for(r - c) {
+                v.push(communities(&(0..k as u32).map(|i| 0xfde9_0000 + i).collect::<Vec<_>>()));
+                v.push(Attribute::new_opaque(CODE_FILLER, 0xc0, vec![0xa5; b]));
+                let n = attrs_wire_len(&v);
+                return (v, n);
+            }
+        }
+        k -= 1;
+    }
+    if let Some(b) = body_for(r) {
+        v.push(Attribute::new_opaque(CODE_FILLER, 0xc0, vec![0xa5; b]));
+    }
+    let n = attrs_wire_len(&v);
+    (v, n)
+}
+
+// ===========================================================================
+// Capabilities and codecs
+// ===========================================================================
+
+/// Encoded size of a capability list inside the OPEN (sum of code+len+value).
+pub fn caps_wire_len(caps: &[Capability]) -> usize {
+    caps.iter()
+        .map(|c| 2 + match c {
+            Capability::MultiProtocol(_) => 4,
+            Capability::RouteRefresh | Capability::ExtendedMessage | Capability::EnhancedRouteRefresh => 0,
+            Capability::ExtendedNexthop(v) => v.len() * 6,
+            Capability::GracefulRestart { families, .. } => 2 + families.len() * 4,
+            Capability::FourOctetAsNumber(_) => 4,
+            Capability::AddPath(v) => v.len() * 4,
+            Capability::LongLivedGracefulRestart(v) => v.len() * 7,
+            Capability::Fqdn { hostname, domain } => 2 + hostname.len() + domain.len(),
+            Capability::Unknown { bin, .. } => bin.len(),
+        })
+        .sum()
+}
+
+/// Capability lists, each RFC-valid and small enough for one classic OPEN
+/// (RFC 5492: the optional-parameter length is one byte, so the capability
+/// bytes must not exceed 253).  Values are canonical (decode(encode(x)) == x):
+/// restart time < 4096, GR flags < 16, add-path modes 1..3, ext-nh only
+/// (AFI 1, next-hop AFI 2), lower-case FQDN.
+pub fn capability_sets() -> Vec<(&'static str, Vec<Capability>)> {
+    let fams = families();
+    let mp_all: Vec<Capability> = fams.iter().map(|f| Capability::MultiProtocol(*f)).collect();
+    let mut v: Vec<(&'static str, Vec<Capability>)> = vec![
+        ("none", vec![]),
+        ("mp-ipv4", vec![Capability::MultiProtocol(Family::IPV4)]),
+        ("mp-ipv4-ipv6", vec![Capability::MultiProtocol(Family::IPV4), Capability::MultiProtocol(Family::IPV6)]),
+        ("mp-all", mp_all.clone()),
+        ("mp-dup-ipv4", vec![Capability::MultiProtocol(Family::IPV4), Capability::MultiProtocol(Family::IPV4)]),
+        ("route-refresh", vec![Capability::RouteRefresh]),
+        ("enhanced-route-refresh", vec![Capability::RouteRefresh, Capability::EnhancedRouteRefresh]),
+        ("ext-msg", vec![Capability::ExtendedMessage]),
+        ("as4-65001", vec![Capability::FourOctetAsNumber(65001)]),
+        ("as4-4200000000", vec![Capability::FourOctetAsNumber(4_200_000_000)]),
+        ("ext-nh-ipv4", vec![Capability::MultiProtocol(Family::IPV4), Capability::ExtendedNexthop(vec![(Family::IPV4, Family::AFI_IP6)])]),
+        // RFC 8950 §4: AFI 1 with SAFI 1, 2, 4, 128
+        ("ext-nh-4safis", vec![Capability::ExtendedNexthop(vec![
+            (Family::IPV4, Family::AFI_IP6), (Family::IPV4_MC, Family::AFI_IP6),
+            (Family::IPV4_MPLS, Family::AFI_IP6), (Family::IPV4_VPN, Family::AFI_IP6),
+        ])]),
+        ("addpath-rx", vec![Capability::MultiProtocol(Family::IPV4), Capability::AddPath(vec![(Family::IPV4, 1)])]),
+        ("addpath-tx", vec![Capability::MultiProtocol(Family::IPV4), Capability::AddPath(vec![(Family::IPV4, 2)])]),
+        ("addpath-both", vec![Capability::MultiProtocol(Family::IPV4), Capability::AddPath(vec![(Family::IPV4, 3)])]),
+        ("addpath-all-both", vec![Capability::AddPath(fams.iter().map(|f| (*f, 3u8)).collect())]),
+        // RFC 4724 §3: flags R=0x8, N=0x4 (RFC 8538); per-AF flag F=0x80
+        ("gr-empty", vec![Capability::GracefulRestart { flags: 0, restart_time: 0, families: vec![] }]),
+        ("gr-ipv4", vec![Capability::GracefulRestart { flags: 0x8, restart_time: 120, families: vec![(Family::IPV4, 0x80)] }]),
+        ("gr-notif-max", vec![Capability::GracefulRestart { flags: 0xc, restart_time: 4095, families: vec![(Family::IPV4, 0x80), (Family::IPV6, 0)] }]),
+        ("gr-all", vec![Capability::GracefulRestart { flags: 0x8, restart_time: 90, families: fams.iter().map(|f| (*f, 0x80u8)).collect() }]),
+        // RFC 9494 §3.1: <AFI, SAFI, flags, stale time (24 bit)>
+        ("llgr-ipv4", vec![Capability::LongLivedGracefulRestart(vec![(Family::IPV4, 0x80, 3600)])]),
+        ("llgr-all-max", vec![Capability::LongLivedGracefulRestart(fams.iter().map(|f| (*f, 0u8, 0xff_ffffu32)).collect())]),
+        // draft-walton-bgp-hostname-capability
+        ("fqdn", vec![Capability::Fqdn { hostname: "rtr1".into(), domain: "example.net".into() }]),
+        ("fqdn-nodomain", vec![Capability::Fqdn { hostname: "rtr1".into(), domain: String::new() }]),
+        ("fqdn-long", vec![Capability::Fqdn { hostname: "h".repeat(64), domain: "d".repeat(64) }]),
+        ("unknown-empty", vec![Capability::Unknown { code: 200, bin: vec![] }]),
+        ("unknown-3", vec![Capability::Unknown { code: 200, bin: vec![1, 2, 3] }]),
+        ("unknown-251", vec![Capability::Unknown { code: 200, bin: vec![7; 251] }]), // 253 bytes: the most one OPEN can carry
+        ("typical", vec![
+            Capability::MultiProtocol(Family::IPV4), Capability::MultiProtocol(Family::IPV6),
+            Capability::RouteRefresh, Capability::FourOctetAsNumber(65001),
+            Capability::GracefulRestart { flags: 0x8, restart_time: 120, families: vec![(Family::IPV4, 0x80), (Family::IPV6, 0x80)] },
+        ]),
+    ];
+    v.push(("all-kinds", vec![
+        Capability::MultiProtocol(Family::IPV4), Capability::MultiProtocol(Family::IPV6),
+        Capability::RouteRefresh, Capability::ExtendedNexthop(vec![(Family::IPV4, Family::AFI_IP6)]),
+        Capability::ExtendedMessage,
+        Capability::GracefulRestart { flags: 0xc, restart_time: 120, families: vec![(Family::IPV4, 0x80), (Family::IPV6, 0x80)] },
+        Capability::FourOctetAsNumber(4_200_000_000),
+        Capability::AddPath(vec![(Family::IPV4, 3), (Family::IPV6, 1)]),
+        Capability::EnhancedRouteRefresh,
+        Capability::LongLivedGracefulRestart(vec![(Family::IPV4, 0x80, 86400)]),
+        Capability::Fqdn { hostname: "rtr1".into(), domain: "example.net".into() },
+        Capability::Unknown { code: 200, bin: vec![1, 2, 3] },
+    ]));
+    // all families negotiated with add-path: 19*6 + 2+19*4 = 192 bytes
+    let mut big = mp_all;
+    big.push(Capability::AddPath(fams.iter().map(|f| (*f, 3u8)).collect()));
+    v.push(("mp-all+addpath-all", big));
+    v
+}
+
+/// RFC-valid capability lists whose encoding exceeds what a classic OPEN can
+/// carry (253 capability bytes; 255 parameter bytes).  A conforming sender must
+/// use RFC 9072 extended optional parameters or several capability parameters;
+/// the code's encoder does neither (u8 length sums) - expected to misbehave.
+pub fn capability_sets_oversize() -> Vec<(&'static str, Vec<Capability>)> {
+    let fams = families();
+    let mut a: Vec<Capability> = fams.iter().map(|f| Capability::MultiProtocol(*f)).collect();
+    a.push(Capability::AddPath(fams.iter().map(|f| (*f, 3u8)).collect()));
+    a.push(Capability::GracefulRestart { flags: 0x8, restart_time: 120, families: fams.iter().map(|f| (*f, 0x80u8)).collect() });
+    vec![
+        ("mp+addpath+gr-all", a),                                                    // 114+78+80 = 272
+        ("unknown-252", vec![Capability::Unknown { code: 200, bin: vec![7; 252] }]), // 254: one byte too many
+        ("unknown-255", vec![Capability::Unknown { code: 200, bin: vec![7; 255] }]),
+        ("two-unknown-200", vec![Capability::Unknown { code: 200, bin: vec![7; 200] }, Capability::Unknown { code: 201, bin: vec![8; 200] }]),
+    ]
+}
+
+/// Capability list one side of a session advertises for exercising `family`.
+/// IPv4 unicast is always advertised as well (the code's extended-next-hop flag
+/// is session-wide and only AFI-1 families can set it).  `addpath_mode` 0 = no
+/// ADD-PATH capability, 1 = receive, 2 = send, 3 = both (for `family`).
+pub fn session_caps(family: Family, as4: bool, ext_msg: bool, ext_nh: bool, addpath_mode: u8) -> Vec<Capability> {
+    let mut v = vec![Capability::MultiProtocol(Family::IPV4)];
+    if family != Family::IPV4 {
+        v.push(Capability::MultiProtocol(family));
+    }
+    if ext_nh {
+        let mut l = vec![(Family::IPV4, Family::AFI_IP6)];
+        if family != Family::IPV4 && family.afi() == Family::AFI_IP {
+            l.push((family, Family::AFI_IP6));
+        }
+        v.push(Capability::ExtendedNexthop(l));
+    }
+    if ext_msg {
+        v.push(Capability::ExtendedMessage);
+    }
+    if as4 {
+        v.push(Capability::FourOctetAsNumber(65001));
+    }
+    if (1..=3).contains(&addpath_mode) {
+        v.push(Capability::AddPath(vec![(family, addpath_mode)]));
+    }
+    v
+}
+
+/// One (local, remote) capability pairing; "l" = sender side, "r" = receiver.
+#[derive(Clone, Copy, Debug, PartialEq, Eq, Hash)]
+pub struct PairDesc {
+    pub l_as4: bool,
+    pub r_as4: bool,
+    pub l_ext_msg: bool,
+    pub r_ext_msg: bool,
+    pub l_ext_nh: bool,
+    pub r_ext_nh: bool,
+    pub l_addpath: u8,
+    pub r_addpath: u8,
+}
+
+impl PairDesc {
+    pub const DEFAULT: PairDesc = PairDesc {
+        l_as4: true, r_as4: true, l_ext_msg: false, r_ext_msg: false,
+        l_ext_nh: false, r_ext_nh: false, l_addpath: 0, r_addpath: 0,
+    };
+    /// RFC 6793 §4.1: 4-octet AS only if both advertise it
+    pub fn two_byte_as(&self) -> bool {
+        !(self.l_as4 && self.r_as4)
+    }
+    /// RFC 8654 §4: extended messages only if both advertise it
+    pub fn ext_msg(&self) -> bool {
+        self.l_ext_msg && self.r_ext_msg
+    }
+    pub fn ext_nh(&self) -> bool {
+        self.l_ext_nh && self.r_ext_nh
+    }
+    /// RFC 7911 §4: the sender includes path ids iff it advertised "send" and the
+    /// receiver advertised "receive"
+    pub fn tx_addpath(&self) -> bool {
+        self.l_addpath & 2 != 0 && self.r_addpath & 1 != 0
+    }
+    pub fn max_len(&self) -> usize {
+        if self.ext_msg() { 65535 } else { 4096 }
+    }
+    pub fn name(&self) -> String {
+        let b = |x: bool| if x { 'y' } else { 'n' };
+        format!(
+            "as4={}{} xmsg={}{} xnh={}{} ap={}{}",
+            b(self.l_as4), b(self.r_as4), b(self.l_ext_msg), b(self.r_ext_msg),
+            b(self.l_ext_nh), b(self.r_ext_nh), self.l_addpath, self.r_addpath
+        )
+    }
+    /// parse the output of `name()`
+    pub fn parse(s: &str) -> Option<PairDesc> {
+        let mut d = PairDesc::DEFAULT;
+        for tok in s.split_whitespace() {
+            let (k, v) = tok.split_once('=')?;
+            let c: Vec<char> = v.chars().collect();
+            if c.len() != 2 {
+                return None;
+            }
+            let yn = |ch: char| ch == 'y';
+            match k {
+                "as4" => { d.l_as4 = yn(c[0]); d.r_as4 = yn(c[1]); }
+                "xmsg" => { d.l_ext_msg = yn(c[0]); d.r_ext_msg = yn(c[1]); }
+                "xnh" => { d.l_ext_nh = yn(c[0]); d.r_ext_nh = yn(c[1]); }
+                "ap" => { d.l_addpath = c[0].to_digit(10)? as u8; d.r_addpath = c[1].to_digit(10)? as u8; }
+                _ => return None,
+            }
+        }
+        Some(d)
+    }
+}
+
+/// (sender codec, receiver codec) of a session described by `d`:
+/// sender = negotiate(local, remote), receiver = negotiate(remote, local).
+pub fn pair_from_desc(family: Family, d: &PairDesc) -> (PeerCodec, PeerCodec) {
+    let l = session_caps(family, d.l_as4, d.l_ext_msg, d.l_ext_nh, d.l_addpath);
+    let r = session_caps(family, d.r_as4, d.r_ext_msg, d.r_ext_nh, d.r_addpath);
+    (PeerCodec::negotiate(&l, &r), PeerCodec::negotiate(&r, &l))
+}
+
+/// All 1024 pairings: AS4 {y,n}^2 x ext-msg {y,n}^2 x ext-nh {y,n}^2 x add-path {0..3}^2.
+pub fn codec_pairs_desc(family: Family) -> Vec<(PairDesc, PeerCodec, PeerCodec)> {
+    let mut out = Vec::with_capacity(1024);
+    for i in 0..1024u32 {
+        let bit = |n: u32| i >> n & 1 == 1;
+        let d = PairDesc {
+            l_as4: !bit(0), r_as4: !bit(1), l_ext_msg: bit(2), r_ext_msg: bit(3),
+            l_ext_nh: bit(4), r_ext_nh: bit(5),
+            l_addpath: (i >> 6 & 3) as u8, r_addpath: (i >> 8 & 3) as u8,
+        };
+        let (s, r) = pair_from_desc(family, &d);
+        out.push((d, s, r));
+    }
+    out
+}
+
+pub fn codec_pairs(family: Family) -> Vec<(String, PeerCodec, PeerCodec)> {
+    codec_pairs_desc(family).into_iter().map(|(d, s, r)| (d.name(), s, r)).collect()
+}
+
+/// 16-pair subset: every *negotiated outcome* of (2-byte AS, ext-msg, ext-nh,
+/// add-path tx) = 2^4, each reached by the symmetric capability choice.
+pub fn codec_pairs_quick(family: Family) -> Vec<(String, PeerCodec, PeerCodec)> {
+    let mut out = Vec::new();
+    for i in 0..16u32 {
+        let bit = |n: u32| i >> n & 1 == 1;
+        let d = PairDesc {
+            l_as4: !bit(0), r_as4: !bit(0), l_ext_msg: bit(1), r_ext_msg: bit(1),
+            l_ext_nh: bit(2), r_ext_nh: bit(2),
+            l_addpath: if bit(3) { 3 } else { 0 }, r_addpath: if bit(3) { 3 } else { 0 },
+        };
+        let (s, r) = pair_from_desc(family, &d);
+        out.push((d.name(), s, r));
+    }
+    out
+}
+
+pub fn default_codec_pair(family: Family) -> (PeerCodec, PeerCodec) {
+    pair_from_desc(family, &PairDesc::DEFAULT)
+}
+
+// ===========================================================================
+// Messages
+// ===========================================================================
+
+pub fn reach(family: Family, entries: Vec<PathNlri>, nexthop: Option<Nexthop>, attrs: &[Attribute]) -> Message {
+    Message::Update(Update::Reach { family, entries, nexthop, attr: Arc::new(attrs.to_vec()) })
+}
+pub fn unreach(family: Family, entries: Vec<PathNlri>) -> Message {
+    Message::Update(Update::Unreach { family, entries })
+}
+pub fn keepalive() -> Message {
+    Message::Keepalive
+}
+
+/// reach / unreach with `n` bulk entries (see `nlri_nth`, `path_entries`) and the
+/// family's default next hop, plus End-of-RIB.
+pub fn updates(family: Family, n: usize, big: bool, addpath: bool, attrs: &[Attribute]) -> Vec<(String, Message)> {
+    let e = path_entries(&nlri_bulk(family, n, big), addpath);
+    vec![
+        (format!("reach[{n}]"), reach(family, e.clone(), default_nexthop(family), attrs)),
+        (format!("unreach[{n}]"), unreach(family, e)),
+        ("eor".to_string(), Message::eor(family)),
+    ]
+}
+
+/// OPENs: every `capability_sets()` entry with a matching AS number (RFC 6793
+/// §4.1: AS > 65535 goes into the capability and AS_TRANS into the header),
+/// plus hold-time / identifier boundary values (RFC 4271 §4.2: hold 0 or >= 3).
+pub fn opens() -> Vec<(String, Message)> {
+    let mut out = Vec::new();
+    let mk = |asn: u32, hold: u16, id: u32, caps: Vec<Capability>| {
+        Message::Open(Open { as_number: asn, holdtime: HoldTime::new(hold).unwrap(), router_id: id, capability: caps })
+    };
+    for (name, caps) in capability_sets() {
+        let asn = caps.iter().find_map(|c| if let Capability::FourOctetAsNumber(a) = c { Some(*a) } else { None }).unwrap_or(65001);
+        out.push((format!("caps:{name}"), mk(asn, 90, 0xc000_0201, caps)));
+    }
+    for hold in [0u16, 3, 180, 65535] {
+        out.push((format!("hold:{hold}"), mk(65001, hold, 0xc000_0201, vec![])));
+    }
+    for id in [1u32, 0x0a00_0001, 0xdfff_ffff] {
+        out.push((format!("id:{id:#x}"), mk(65001, 90, id, vec![])));
+    }
+    out.push(("as:1".into(), mk(1, 90, 1, vec![])));
+    out.push(("as:65535".into(), mk(65535, 90, 1, vec![Capability::FourOctetAsNumber(65535)])));
+    out.push(("as:65536".into(), mk(65536, 90, 1, vec![Capability::FourOctetAsNumber(65536)])));
+    out
+}
+
+/// One NOTIFICATION per variant of the enum (each code/subcode the code can
+/// name), data bytes where the variant carries them, plus two unnamed ones.
+pub fn notifications() -> Vec<(String, Message)> {
+    use Notification as N;
+    let d = || vec![0xde, 0xad];
+    let v: Vec<Notification> = vec![
+        N::BadMessageLength { data: vec![0x10, 0x01] },
+        N::BadMessageType { data: vec![9] },
+        N::OpenMalformed,
+        N::OpenUnsupportedVersionNumber { data: vec![0, 4] },
+        N::OpenBadPeerAs,
+        N::OpenBadBgpIdentifier,
+        N::OpenUnsupportedOptionalParameter { data: d() },
+        N::OpenUnsupportedCapability { data: vec![65, 4, 0, 0, 0xfd, 0xe9] },
+        N::OpenUnacceptableHoldTime { data: vec![0, 1] },
+        N::UpdateMalformedAttributeList,
+        N::UpdateUnrecognizedWellKnownAttribute { data: vec![0x40, 99, 0] },
+        N::UpdateMissingWellKnownAttribute { data: vec![1] },
+        N::UpdateAttributeFlagsError { data: vec![0x80, 1, 1, 0] },
+        N::UpdateAttributeLengthError { data: vec![0x40, 1, 2, 0, 0] },
+        N::UpdateInvalidOriginAttribute { data: vec![0x40, 1, 1, 3] },
+        N::UpdateInvalidNextHopAttribute { data: vec![0x40, 3, 4, 0, 0, 0, 0] },
+        N::UpdateOptionalAttributeError,
+        N::UpdateInvalidNetworkField,
+        N::UpdateMalformedAsPath,
+        N::HoldTimerExpired,
+        N::FsmUnexpectedState { state: 0 },
+        N::FsmUnexpectedState { state: 3 },
+        N::CeaseMaxPrefixReached,
+        N::CeaseAdminShutdown,
+        N::CeasePeerDeconfigured,
+        N::CeaseAdministrativeReset,
+        N::CeaseConnectionRejected,
+        N::CeaseOtherConfigurationChange,
+        N::CeaseConnectionCollision,
+        N::CeaseOutOfResources,
+        N::CeaseHardReset,
+        N::RouteRefreshInvalidLength { data: d() },
+        N::Other { code: 6, subcode: 10, data: vec![] },
+        N::Other { code: 9, subcode: 1, data: vec![1, 2, 3] },
+        N::BadMessageLength { data: vec![] },
+        N::UpdateAttributeLengthError { data: vec![0x77; 300] },
+    ];
+    v.into_iter()
+        .map(|n| (format!("{}/{}+{}", n.notification_code(), n.notification_subcode(), n.notification_data().len()), Message::Notification(n)))
+        .collect()
+}
+
+pub fn route_refreshes() -> Vec<(String, Message)> {
+    families().into_iter().map(|f| (family_name(f).to_string(), Message::RouteRefresh { family: f })).collect()
+}
+
+// ===========================================================================
+// Encoding / decoding wrappers
+// ===========================================================================
+
+/// `PeerCodec::encode_to(&mut self, &Message, &mut B) -> Result<usize, Error>`
+/// appends one or more wire messages to the buffer and returns how many it
+/// wrote.  Returns (that count, the raw bytes).
+pub fn encode_counted(codec: &mut PeerCodec, msg: &Message) -> Result<(usize, Vec<u8>), String> {
+    let mut buf: Vec<u8> = Vec::new();
+    match codec.encode_to(msg, &mut buf) {
+        Ok(n) => Ok((n, buf)),
+        Err(e) => Err(format!("encode_to: {e}")),
+    }
+}
+
+/// Split a buffer into BGP frames by the header length field (bytes 16..18).
+pub fn split_frames(buf: &[u8]) -> Result<Vec<Vec<u8>>, String> {
+    let mut out = Vec::new();
+    let mut pos = 0usize;
+    while pos < buf.len() {
+        if buf.len() - pos < 19 {
+            return Err(format!("{} trailing bytes at offset {pos}: shorter than a header", buf.len() - pos));
+        }
+        let len = u16::from_be_bytes([buf[pos + 16], buf[pos + 17]]) as usize;
+        if len < 19 {
+            return Err(format!("frame at offset {pos}: header length {len} < 19"));
+        }
+        if pos + len > buf.len() {
+            return Err(format!("frame at offset {pos}: header length {len} exceeds the {} bytes left", buf.len() - pos));
+        }
+        out.push(buf[pos..pos + len].to_vec());
+        pos += len;
+    }
+    Ok(out)
+}
+
+/// encode + split into frames.
+pub fn encode(codec: &mut PeerCodec, msg: &Message) -> Result<Vec<Vec<u8>>, String> {
+    let (_, buf) = encode_counted(codec, msg)?;
+    split_frames(&buf)
+}
+
+/// `PeerCodec::parse_message(&mut self, &[u8])` on exactly one frame.  (The
+/// streaming entry point is `try_parse(&mut BytesMut) -> Result<Option<_>, _>`,
+/// which checks the header length against the negotiated maximum, splits one
+/// frame off and calls parse_message.)
+pub fn decode_frame(codec: &mut PeerCodec, frame: &[u8]) -> Result<ParsedMessage, Notification> {
+    codec.parse_message(frame)
+}
+
+/// Decode hand-written NLRI bytes of `family` with the code's decoder by
+/// wrapping them into an UPDATE with MP_REACH_NLRI (legacy NLRI field for IPv4).
+pub fn nlri_from_wire(family: Family, addpath: bool, nlri: &[u8]) -> Result<Vec<PathNlri>, String> {
+    let mut codec = PeerCodec::new();
+    codec.set_family(family, rustybgp_packet::bgp::FamilyState { addpath_rx: addpath, addpath_tx: addpath });
+    let mut attrs: Vec<u8> = vec![0x40, 1, 1, 0, 0x40, 2, 0];
+    let mut tail: Vec<u8> = Vec::new();
+    if family == Family::IPV4 {
+        attrs.extend_from_slice(&[0x40, 3, 4, 192, 0, 2, 1]);
+        tail.extend_from_slice(nlri);
+    } else {
+        let nh: Vec<u8> = match default_nexthop(family) {
+            None => vec![],
+            Some(n) => {
+                let mut b = if matches!(family, Family::IPV4_VPN | Family::IPV6_VPN) { vec![0u8; 8] } else { vec![] };
+                b.extend_from_slice(&n.to_bytes());
+                b
+            }
+        };
+        let mut mp = family.afi().to_be_bytes().to_vec();
+        mp.push(family.safi());
+        mp.push(nh.len() as u8);
+        mp.extend_from_slice(&nh);
+        mp.push(0);
+        mp.extend_from_slice(nlri);
+        attrs.extend_from_slice(&[0x90, 14]);
+        attrs.extend_from_slice(&(mp.len() as u16).to_be_bytes());
+        attrs.extend_from_slice(&mp);
+    }
+    let total = 19 + 2 + 2 + attrs.len() + tail.len();
+    let mut f = vec![0xffu8; 16];
+    f.extend_from_slice(&(total as u16).to_be_bytes());
+    f.push(2);
+    f.extend_from_slice(&[0, 0]);
+    f.extend_from_slice(&(attrs.len() as u16).to_be_bytes());
+    f.extend_from_slice(&attrs);
+    f.extend_from_slice(&tail);
+    match codec.parse_message(&f) {
+        Ok(ParsedMessage::Update(ParsedUpdate::Routes { reach, mp_reach, error_attrs, .. })) => {
+            if !error_attrs.is_empty() {
+                return Err(format!("attribute errors: {error_attrs:?}"));
+            }
+            Ok(reach.or(mp_reach).map(|r| r.entries).unwrap_or_default())
+        }
+        Ok(_) => Err("not a route-carrying UPDATE".into()),
+        Err(n) => Err(format!("decoder rejected the NLRI: {n}")),
+    }
 }
